@@ -717,7 +717,7 @@ class choice_converters:
                     for value in word.value.split("+"):
                         if len(value) == 0:
                             continue
-                        if value not in flags:
+                        if value.lower() not in flags:
                             raise_not_a_possible_choice(value)
                         flags[value.lower()] = True
             else:
